@@ -200,6 +200,97 @@ class FloatOrder:
         return False
 
 
+def positive_length_obligations(state: State, entries, facts=(), strict_facts=(), input_pairs=()):
+    """For every output interval whose ends are not both input floats: is fl(start) < fl(end) derivable?
+    -> list of (i, ok, text).  Rules: P1 both ends input floats / constants, ordered by the case; P2 a strict comparison the
+    program made on this path between exactly these two expressions; P3 the two ends are the two ends of ONE input
+    interval moved by the same rounded offset (x + d, y + d) or (x - d, y - d) -- the modelling assumption that an input
+    interval is long enough to survive the translation the operation is asked for; P4 0 against a single rounded sum or
+    difference of input floats (never rounds to 0 unless it is 0); P5 through max / min; P6 start is an input float
+    that is exactly <= some input float t with fl(t) <= ... <= end strict somewhere (transitivity through leaves with
+    one strict step)."""
+    fo = FloatOrder(state, facts)
+    pairs = {(repr(a), repr(b)) for a, b in input_pairs}
+    starts, ends = {a for a, _ in pairs}, {b for _, b in pairs}
+
+    def leaves(t):
+        if t[0] == "v":
+            return {t[1]}
+        out_ = set()
+        for x in t[1:]:
+            if isinstance(x, tuple) and x and isinstance(x[0], str):
+                out_ |= leaves(x)
+            elif isinstance(x, (list, tuple)):
+                for y in x:
+                    if isinstance(y, tuple):
+                        out_ |= leaves(y)
+        return out_
+
+    def leaf_lt(u, v):
+        return state.signs(lin_of(u) - lin_of(v)) == frozenset([-1])
+
+    def lt(u, v, depth=0):
+        if depth > 6 or u[0] == "?" or v[0] == "?":
+            return False
+        if fo.leaf(u) and fo.leaf(v):
+            return leaf_lt(u, v)
+        for p_, q_ in strict_facts:
+            if fo.same(u, p_) and fo.same(q_, v):
+                return True
+        if u[0] == v[0] and u[0] in ("+", "-") and fo.leaf(u[1]) and fo.leaf(v[1]) and fo.same(u[2], v[2]):
+            if (repr(lin_of(u[1])), repr(lin_of(v[1]))) in pairs:
+                return True  # P3
+        if u[0] == v[0] == "+" and fo.leaf(u[2]) and fo.leaf(v[2]) and fo.same(u[1], v[1]) and (repr(lin_of(u[2])), repr(lin_of(v[2]))) in pairs:
+            return True  # P3, offset written first
+        if u[0] == "c" and u[1] == 0 and v[0] in ("+", "-") and fo.leaf(v[1]) and fo.leaf(v[2]):
+            d = lin_of(v[1]) + lin_of(v[2]) if v[0] == "+" else lin_of(v[1]) - lin_of(v[2])
+            return state.signs(d) == frozenset([1])  # P4
+        if v[0] == "max":
+            return any(lt(u, q_, depth + 1) for q_ in v[1])
+        if u[0] == "min":
+            return any(lt(p_, v, depth + 1) for p_ in u[1])
+        if u[0] == "max":
+            return all(lt(p_, v, depth + 1) for p_ in u[1])
+        if v[0] == "min":
+            return all(lt(u, q_, depth + 1) for q_ in v[1])
+        # P6: one strict step between input floats, the rest by the <= prover
+        for name in fo.vars:
+            t = ("v", name)
+            if fo.leaf(u) and t != u and leaf_lt(u, t) and fo.le(t, v):
+                return True
+            if fo.leaf(v) and t != v and leaf_lt(t, v) and fo.le(u, t):
+                return True
+        return False
+    out = []
+    for i, e in enumerate(entries):
+        u, v = e[0], e[1]
+        tu, tv = getattr(u, "tree", ("?",)), getattr(v, "tree", ("?",))
+        if fo.leaf(tu) or fo.leaf(tv):
+            # one end is an input float, the other one rounded expression: they can only coincide on an exact rounding tie;
+            # no generic failing input is known for that shape, so nothing is demanded (listed under not_decided)
+            continue
+        # the image of ONE whole input interval (its start computed from that interval's start, its end from that
+        # interval's end, whatever offsets and clamps are applied): covered by the stated assumption that input
+        # intervals are long enough to survive the translation asked for -- no obligation.  A *piece* (an end that
+        # is the caller's cut time, or ends taken from two different intervals) gets the obligation.
+        su = {n for n in leaves(tu) if n in starts or n in ends}
+        sv = {n for n in leaves(tv) if n in starts or n in ends}
+        if len(su) == 1 and len(sv) == 1 and (next(iter(su)), next(iter(sv))) in pairs:
+            continue
+        out.append((i, lt(tu, tv), "fl(%s) < fl(%s)" % (show(tu), show(tv)), "fl(%s) < fl(%s)" % (canon_text(tu), canon_text(tv))))
+    return out
+
+
+def canon_text(t) -> str:
+    """rendering in which the operands of a (commutative, once-rounded) sum are ordered: the name of a kind of piece"""
+    if t[0] == "+":
+        a, b = sorted([canon_text(t[1]), canon_text(t[2])])
+        return "(%s + %s)" % (a, b)
+    if t[0] in ("-", "*", "/"):
+        return "(%s %s %s)" % (canon_text(t[1]), t[0], canon_text(t[2]))
+    return show(t)
+
+
 def seam_obligations(state: State, entries, facts=()):
     """For consecutive interval entries (tuples whose first two items are Lin with trees) yield
     (i, ok, can_touch, text) for the obligation fl(end_i) <= fl(start_{i+1})."""
